@@ -562,6 +562,9 @@ def observe_writer(avro):
         [("flush", None), ("close", None)],
         [("write", u1), ("write", a1), ("write", u1), ("flush", None), ("write", u1), ("close", None)],
         [("write", abad), ("write", a1), ("close", None)],
+        # the stdout target (is_stdout(fp)): flushed like a file, but not closed
+        ["stdout", ("write", a1), ("write", a2), ("close", None)],
+        ["stdout", ("close", None)],
     ]
     saved = (avro.fastavro, avro.descriptor_to_schema)
     trace = []
@@ -569,7 +572,11 @@ def observe_writer(avro):
         avro.fastavro = proxy
         avro.descriptor_to_schema = d2s
         for sc in scenarios:
-            w = avro.AvroWriter(Fp())
+            fp = Fp()
+            if sc[0] == "stdout":
+                fp._is_stdout = True
+                sc = sc[1:]
+            w = avro.AvroWriter(fp)
             for call, arg in sc:
                 del events[:]
                 try:
@@ -607,13 +614,16 @@ def canonical_writer_trace():
         ("close", "ok", ("parse:empty", "Writer:empty:codec") + closed, "desc=obs/u writer=- fp=-"),
         ("write", "ValueError", first[:4], est), ("write", "ok", ("dry", "w.write"), est),
         ("close", "ok", closed, "desc=obs/a writer=- fp=-"),
+        ("write", "ok", first, est), ("write", "ok", ("dry", "w.write"), est), ("close", "ok", ("w.flush",), "desc=obs/a writer=- fp=-"),
+        ("close", "ok", ("parse:empty", "Writer:empty:codec", "w.flush"), "desc=- writer=- fp=-"),
     ]
 
 
 def writer_code(avro, notes):
     """AvroWriter.write/flush/close as statement lists.  OBSERVED: the order of side effects on scripted sessions
     (schema built, parsed, writer created, scratch encode BEFORE the block buffer, one descriptor per file incl. an
-    identifier-colliding one, flush only with a writer, placeholder + flush + file close on close); conclusive when
+    identifier-colliding one, flush only with a writer, placeholder + flush + file close on close, the stdout target
+    flushed but not closed); conclusive when
     it equals what the canonical statement lists do.  The source recogniser (follows private helpers one level) is a
     cross-check: it decides only when the observation is not the canonical one."""
     try:
